@@ -180,7 +180,7 @@ func histRun(env *sess.Env, sc *histScenario, cfg histCfg) histResult {
 			// property quantifies over targets that implement case detection.
 			targetChoose := ss.Fired[0].Call == "Choose" && ss.Fired[0].Side == "T"
 			if cfg.checkCases && !targetChoose {
-				if d := walked.TwoCases(); d != "" {
+				if d := got.TwoCases(); d != "" {
 					add(i, "one-case", "two-cases-after-failed-edit:"+sc.Store, d+" (after a callback of the edit failed)")
 				}
 			}
@@ -197,7 +197,7 @@ func histRun(env *sess.Env, sc *histScenario, cfg histCfg) histResult {
 		// ---- fault-free configuration: strict
 		// invariants first: they hold whatever else this operation got wrong
 		if cfg.checkCases {
-			if d := walked.TwoCases(); d != "" {
+			if d := got.TwoCases(); d != "" {
 				add(i, "one-case", "two-cases:"+sc.Store, d)
 			}
 		}
